@@ -48,7 +48,10 @@ TrFreeze == IsEvent("freeze") /\ stack = << >>
             /\ frozen' = frozen \cup data /\ ToSet(Ev.frozen) = data
             /\ UNCHANGED <<data, age, count, stack, nreq, hist, obj, dirty, handed, status, nset>>
 
-TrNext == TrSet \/ TrHit0 \/ TrEnter0 \/ TrHit \/ TrEnter \/ TrTest \/ TrDread \/ TrExit \/ TrExitH \/ TrRaise \/ TrFreeze
+(* the item interface asked for a method that takes arguments: nothing changes (sizes of both tables are logged) *)
+TrGetFunc == IsEvent("getfunc") /\ Cardinality(data) = Ev.ndata /\ Cardinality(DOMAIN age) = Ev.naged
+             /\ UNCHANGED vars
+TrNext == TrGetFunc \/ TrSet \/ TrHit0 \/ TrEnter0 \/ TrHit \/ TrEnter \/ TrTest \/ TrDread \/ TrExit \/ TrExitH \/ TrRaise \/ TrFreeze
 TrSpec == TrInit /\ [][TrNext]_tvars
 
 (* progress registers: 100 + tid holds the furthest position matched for trace tid *)
